@@ -752,6 +752,10 @@ class StretchyTreeMatcher:
             std_value = stdTup[1]
 
             if ins_value is None:
+                # An absent optional field places no constraint, but the value of the literal
+                # None is None as well: that one has to be compared
+                if isinstance(ins, ast.Constant) and ins_field == 'value' and std_value is not None:
+                    is_match = False
                 continue
 
             ignore_field = ins_field in ignores
